@@ -12,6 +12,8 @@ import (
 	"bytes"
 	"fmt"
 	"go.dedis.ch/kyber/v4/compatible/compatiblemod"
+	"go.dedis.ch/kyber/v4/pairing/bn254"
+	"go.dedis.ch/kyber/v4/sign/bls"
 	"go.dedis.ch/kyber/v4/util/random"
 	"math/big"
 	"strings"
@@ -280,6 +282,30 @@ func c20SchemeMethods() []roMethod {
 		}
 		return "ok"
 	}})
+	// hash-to-curve through ONE shared suite whose domain separation tags were set by the caller
+	// (tags of several lengths: an append onto the suite's stored tag is invisible in the results)
+	for _, dl := range []int{5, 43, 64} {
+		bs := bn254.NewSuite()
+		bs.SetDomainG1(bytes.Repeat([]byte{'d'}, dl))
+		bs.SetDomainG2(bytes.Repeat([]byte{'e'}, dl))
+		g1p, g2p := bs.G1().Point(), bs.G2().Point()
+		sch := bls.NewSchemeOnG1(bs)
+		bx, bX := sch.NewKeyPair(st)
+		bsig, _ := sch.Sign(bx, msg)
+		ms = append(ms, roMethod{fmt.Sprintf("bn254 caller-set DST(%d): G1 Hash", dl), func() string {
+			h1 := bs.G1().Point().(kyber.HashablePoint).Hash(msg)
+			h2 := g1p.Clone().(kyber.HashablePoint).Hash(msg)
+			return pointHex(h1) + pointHex(h2)
+		}}, roMethod{fmt.Sprintf("bn254 caller-set DST(%d): G2 Hash", dl), func() string {
+			if hp, ok := g2p.Clone().(kyber.HashablePoint); ok {
+				return pointHex(hp.Hash(msg))
+			}
+			return "n/a"
+		}}, roMethod{fmt.Sprintf("bn254 caller-set DST(%d): bls Sign+Verify", dl), func() string {
+			s2, err := sch.Sign(bx, msg)
+			return fmt.Sprintf("%x %v %v", s2, err, sch.Verify(bX, msg, bsig))
+		}})
+	}
 	// public polynomial
 	pri := share.NewPriPoly(ed, 3, nil, st)
 	pub := pri.Commit(nil)
